@@ -32,7 +32,9 @@ RULE = ("'Programs': every generated operation history is a program for the refe
         "(Bloom / on-disk Bloom / counting Bloom / count-min with all three query types / expanding / rotating / cuckoo / counting cuckoo), a "
         "geometry (est 1..300, fpr incl. awkward values and 10^-u, widths 1..64, depths 1..8, tiny cuckoo tables with 1/2/4-byte or error-rate "
         "fingerprints), a pool of 2-10 keys, a history of 3-40 additions / legitimate removals, and 1-4 extra probe keys. Non-trivial = >= 3 "
-        "additions, >= 1 member probe and >= 1 non-member probe. Distinct by (structure, geometry, resolved history, probes).")
+        "additions, >= 1 member probe and >= 1 non-member probe. Distinct by (structure, geometry, resolved history, probes). Deterministic "
+        "slice 'sizing_sweep': the library's sizing routine against the C reference's (m, k) for every est_elements of consecutive ranges "
+        "(quick: 6 million values at two rates, thorough: 64 million at five) in chunks of 250000.")
 ASSUMPTIONS = ["the reference is mine (cref/ref.c, written from the format description), not the upstream C library (not available offline); its FNV "
                "is pinned to the published vectors", "native little-endian host, 4-byte float", "mean and mean-min use floor division (the library's "
                "observable rule); cases with negative intermediates are counted", "mean-min with width 1 is outside the domain",
